@@ -224,20 +224,28 @@ theorem read_err_origin (Q : Err → Prop) (maxMsg : Nat) (st : RState) (s : Scr
 
 /-! ### flow control -/
 
+/-- bytes an operation writes below the flow control (heartbeats of the dialling side) -/
+def opHb : WOp → Nat
+  | .hbWrite n => n
+  | _ => 0
+
+def hbBytes (ops : List WOp) : Nat := (ops.map opHb).sum
+
 /-- with the token in the channel at most `max` bytes are buffered; without it at most `max + max/2`
-(one stale token may have been spent); a blocked write has not been added yet -/
-def WInv (max : Nat) (s : WState) : Prop :=
-  (s.token = true → s.buffered ≤ max) ∧ s.buffered ≤ max + max / 2 ∧
+(one stale token may have been spent); a blocked write has not been added yet.  `h` is the slack for
+bytes written below the flow control. -/
+def WInv (max h : Nat) (s : WState) : Prop :=
+  (s.token = true → s.buffered ≤ max + h) ∧ s.buffered ≤ max + max / 2 + h ∧
   (∀ n, s.blocked = some n → n ≤ max / 2 ∧ s.token = false)
 
-theorem winv_init (max : Nat) : WInv max {} := by simp [WInv]
+theorem winv_init (max : Nat) : WInv max 0 {} := by simp [WInv]
 
-theorem winv_step (max : Nat) (s : WState) (op : WOp) (hop : ∀ n, op ≠ .hbWrite n) (h : WInv max s) :
-    WInv max (wstep max s op).1 := by
-  obtain ⟨h1, h2, h3⟩ := h
+theorem winv_step (max h : Nat) (s : WState) (op : WOp) (hi : WInv max h s) :
+    WInv max (h + opHb op) (wstep max s op).1 := by
+  obtain ⟨h1, h2, h3⟩ := hi
   cases op with
   | write n =>
-    simp only [wstep]
+    simp only [wstep, opHb, Nat.add_zero]
     split
     · exact ⟨h1, h2, h3⟩
     · rename_i hb
@@ -268,7 +276,7 @@ theorem winv_step (max : Nat) (s : WState) (op : WOp) (hop : ∀ n, op ≠ .hbWr
           · rename_i hfit
             refine ⟨fun _ => by simp only; omega, by simp only; omega, by simp [hb']⟩
   | drain k =>
-    simp only [wstep]
+    simp only [wstep, opHb, Nat.add_zero]
     split
     · rename_i hfire
       split
@@ -278,11 +286,23 @@ theorem winv_step (max : Nat) (s : WState) (op : WOp) (hop : ∀ n, op ≠ .hbWr
       · rename_i hbl
         refine ⟨fun _ => by simp only; omega, by simp only; omega, by simp [hbl]⟩
     · refine ⟨fun ht => by have := h1 ht; simp only; omega, by simp only; omega, h3⟩
-  | hbWrite n => exact absurd rfl (hop n)
+  | hbWrite n =>
+    simp only [wstep, opHb]
+    exact ⟨fun ht => by have := h1 ht; simp only; omega, by simp only; omega, h3⟩
   | close =>
-    simp only [wstep]
+    simp only [wstep, opHb, Nat.add_zero]
     split
     · exact ⟨h1, h2, by simp⟩
     · exact ⟨h1, h2, h3⟩
+
+theorem winv_run (max : Nat) (ops : List WOp) (h : Nat) (s : WState) (hi : WInv max h s) :
+    WInv max (h + hbBytes ops) (wrun max ops s) := by
+  induction ops generalizing h s with
+  | nil => simpa [hbBytes, wrun] using hi
+  | cons o os ih =>
+    have := ih (h + opHb o) (wstep max s o).1 (winv_step max h s o hi)
+    simp only [hbBytes, List.map_cons, List.sum_cons] at this ⊢
+    rw [Nat.add_assoc] at this
+    exact this
 
 end CJ.SctpConn
